@@ -437,6 +437,11 @@ def jobs(tier):
     for kind in ("heartbeat", "bootup"):
         for prior in (0, 1):
             out.append(dict(func="wait_threads", params=dict(kind=kind, prior=prior)))
+            # the same with one preemption placed at any source line of canopen code
+            out.append(dict(func="wait_threads", params=dict(kind=kind, prior=prior, preempt=1), weight=300))
+    if tier == "thorough":
+        for kinds in ("hh", "hb"):
+            out.append(dict(func="two_waiters", params=dict(kinds=kinds, preempt=1), weight=8000))
     for p in ([], ["b"], ["h", "b"], ["h"], ["h", "h", "b"], ["-"]):
         for prior in (0, 1):
             out.append(dict(func="wait_bootup", params=dict(pattern=p, prior=prior)))
